@@ -126,5 +126,20 @@ SizesSuffice ==
             LET n == TVal(t.k, vs[i])  s == NeedBits(t.k, n) IN
             /\ s <= t.w
             /\ (s >= 1 => TVal(t.k, NumBits(n, s)) = n)
-Safety == TotalBits /\ RoundTrip /\ NonInterference /\ NumbersAgree /\ SizesSuffice
+(***************************************************************************)
+(* String results (result.go, TString): a string of k characters occupies  *)
+(* 8k wires, character i in bits 8i .. 8i+7, least significant bit first.  *)
+(* StrWires / StrChars are the two directions; a result of fewer set bits  *)
+(* than 8k still has k characters (trailing zero characters are kept).     *)
+(***************************************************************************)
+ByteBits(c) == [i \in 1..8 |-> (c \div Pow2(i - 1)) % 2]
+BitsByte(b) == LET RECURSIVE V(_)
+                   V(i) == IF i > 8 THEN 0 ELSE b[i] * Pow2(i - 1) + V(i + 1)
+               IN V(1)
+StrWires(chars) == Concat([i \in 1..Len(chars) |-> ByteBits(chars[i])])
+StrChars(bits) == [i \in 1..(Len(bits) \div 8) |-> BitsByte(SubSeq(bits, 8 * (i - 1) + 1, 8 * i))]
+StrCases == UNION {[1..k -> {0, 1, 65, 128, 255}] : k \in 0..2}
+StringsRoundTrip == \A cs \in StrCases : StrChars(StrWires(cs)) = cs /\ Len(StrWires(cs)) = 8 * Len(cs)
+
+Safety == TotalBits /\ RoundTrip /\ NonInterference /\ NumbersAgree /\ SizesSuffice /\ StringsRoundTrip
 =============================================================================
